@@ -51,6 +51,17 @@ Theorem c14_array_capacity_keeps_content : forall (A : Type) (junk d : A) (w : @
 Proof. exact @array_capacity_keeps_content. Qed.
 Print Assumptions c14_array_capacity_keeps_content.
 
+(* Swap(Storage()[k1], Storage()[k2]): what the specification's list becomes is the exchange of the two
+   positions (same length, position k2 holds the old k1, k1 the old k2, every other position unchanged);
+   range-for, Last, IsEmpty and the stream-insertion operators are read-only operations of the histories
+   above: their outputs are the specification's list / its last element / length = 0 / its C-string prefix *)
+Theorem c14_swap_meaning : forall (T : Type) (l : list T) k1 k2 d, k1 < length l -> k2 < length l ->
+  let l' := splice (splice l k1 [nth k2 l d]) k2 [nth k1 l d] in
+  length l' = length l /\
+  forall k, nth k l' d = if Nat.eqb k k2 then nth k1 l d else if Nat.eqb k k1 then nth k2 l d else nth k l d.
+Proof. exact @swap_spec_meaning. Qed.
+Print Assumptions c14_swap_meaning.
+
 (* ---- String ---- *)
 (* as above, and the NUL terminator is present at [Length()] of every object after every history *)
 Theorem c14_string_history : forall ops : list sop, Forall sop_ok ops ->
